@@ -809,6 +809,8 @@ Proof.
 Qed.
 
 (* ------------------------------------------------------------------ R union_dependency_unrecorded (C08): the guard cannot be dropped.
+   (The graph below is what the abstraction produced for the tree BEFORE the fix 204aaa6, which hands `roots` through
+   UnionProperty.build; since then the abstraction emits recorded union-member edges and this shape no longer arises from a document.)
    A = object with a property that is an array without items (fails in process_model), U = anyOf[$ref A, string],
    M = object { u: $ref U }.  A is removed; U and M survive; U's description refers to A.  (ids: A=1 U=2 M=3) *)
 Definition witness_union : graph :=
